@@ -11,8 +11,10 @@ double nondet_double(void);
 
 #define SETUP()                                                             \
   VERIF_ALLOC_RESET();                                                      \
-  _cbor_malloc = v_malloc; _cbor_realloc = v_realloc; _cbor_free = v_free;  \
-  g_k = nondet_size()
+  verif_bind_allocator();  \
+  g_s.valid = false;                                                        \
+  g_k = nondet_size();                                                      \
+  __CPROVER_assume(g_k <= VERIF_MAXCNT) /* keeps base + g_k inside pointer arithmetic range */
 
 #if defined(H_ITEM_OP)
 /* one symbolic item `it` (built by MK, restricted by PRE), scalar arguments nd / ndf / ndd */
@@ -86,5 +88,120 @@ void harness(void) {
   cbor_item_t *r = cbor_build_tag(nondet_u64(), child);
   __CPROVER_assert(r == NULL, "COVER constructed");
   __CPROVER_assert(r != NULL, "COVER allocation refused");
+}
+#endif
+
+/* ------------------------------------------------------------------ arrays */
+#if defined(H_ARRAY_PUSH)
+void harness(void) {
+  SETUP();
+  cbor_item_t *arr = mk_array(), *pushee = mk_elem();
+  size_t in_alloc = arr->metadata.array_metadata.allocated, in_end = arr->metadata.array_metadata.end_ptr;
+  bool in_def = arr->metadata.array_metadata.type == _CBOR_METADATA_DEFINITE;
+  g_s.valid = true;
+  if (g_k < in_end) g_s.item = ((cbor_item_t **)arr->data)[g_k];
+  bool r = cbor_array_push(arr, pushee);
+  __CPROVER_assert(!(r && g_k < in_end && in_end == in_alloc && !in_def), "COVER earlier element watched across a reallocation");
+  __CPROVER_assert(!(in_def && !r), "COVER definite array full: refused");
+  __CPROVER_assert(!(in_def && r), "COVER definite array accepts");
+  __CPROVER_assert(!(!in_def && r && in_end < in_alloc), "COVER indefinite array with room");
+  __CPROVER_assert(!(!in_def && r && in_end == in_alloc && in_alloc > 0), "COVER indefinite array grows by doubling");
+  __CPROVER_assert(!(!in_def && r && in_alloc == 0), "COVER first growth from empty");
+  __CPROVER_assert(!(!in_def && !r), "COVER growth refused by the allocator");
+}
+#elif defined(H_ARRAY_GET)
+void harness(void) {
+  SETUP();
+  g_alloc_forbidden = true;
+  cbor_item_t *arr = mk_array();
+  size_t in_index = nondet_size();
+  g_s.valid = true;
+  if (in_index < arr->metadata.array_metadata.end_ptr) {
+    cbor_item_t *el = mk_elem();
+    ((cbor_item_t **)arr->data)[in_index] = el;
+    g_s.refcount = el->refcount;
+  }
+  cbor_item_t *r = cbor_array_get(arr, in_index);
+  __CPROVER_assert(r == NULL, "COVER in-range get");
+  __CPROVER_assert(!(in_index >= arr->metadata.array_metadata.end_ptr), "COVER out-of-range get");
+  __CPROVER_assert(!(in_index >= arr->metadata.array_metadata.allocated), "COVER index beyond capacity");
+}
+#elif defined(H_ARRAY_REPLACE)
+void harness(void) {
+  SETUP();
+  cbor_item_t *arr = mk_array(), *value = mk_elem();
+  size_t in_index = nondet_size();
+  if (in_index < arr->metadata.array_metadata.end_ptr) {
+    cbor_item_t *old = nondet_bool() ? value : mk_elem();
+    __CPROVER_assume(old != value || value->refcount >= 2);
+    ((cbor_item_t **)arr->data)[in_index] = old;
+    g_s.item = old;
+  }
+  g_s.valid = true;
+  bool r = cbor_array_replace(arr, in_index, value);
+  __CPROVER_assert(!r, "COVER replaced");
+  __CPROVER_assert(r, "COVER out-of-range replace refused");
+  __CPROVER_assert(!(in_index == arr->metadata.array_metadata.end_ptr), "COVER index == size");
+}
+#elif defined(H_ARRAY_SET)
+void harness(void) {
+  SETUP();
+  cbor_item_t *arr = mk_array(), *value = mk_elem();
+  size_t in_index = nondet_size();
+  size_t in_end = arr->metadata.array_metadata.end_ptr;
+  if (in_index < in_end) {
+    cbor_item_t *old = mk_elem();
+    ((cbor_item_t **)arr->data)[in_index] = old;
+  }
+  bool r = cbor_array_set(arr, in_index, value);
+  __CPROVER_assert(!(r && in_index < in_end), "COVER set replaces");
+  __CPROVER_assert(!(r && in_index == in_end), "COVER set pushes at size");
+  __CPROVER_assert(!(in_index > in_end), "COVER set beyond size refused");
+}
+#endif
+
+/* ------------------------------------------------------------------ maps and chunked strings */
+#if defined(H_MAP_ADD_KEY) || defined(H_MAP_ADD) || defined(H_MAP_ADD_VALUE)
+void harness(void) {
+  SETUP();
+  cbor_item_t *map = mk_map(), *key = mk_elem(), *value = nondet_bool() ? key : mk_elem();
+  size_t in_alloc = map->metadata.map_metadata.allocated, in_end = map->metadata.map_metadata.end_ptr;
+  bool in_def = map->metadata.map_metadata.type == _CBOR_METADATA_DEFINITE;
+  g_s.valid = true;
+  if (g_k < in_end) { g_s.key = ((struct cbor_pair *)map->data)[g_k].key; g_s.value = ((struct cbor_pair *)map->data)[g_k].value; }
+#if defined(H_MAP_ADD_KEY)
+  bool r = _cbor_map_add_key(map, key);
+#elif defined(H_MAP_ADD_VALUE)
+  bool r = _cbor_map_add_value(map, value);
+#else
+  bool r = cbor_map_add(map, (struct cbor_pair){.key = key, .value = value});
+#endif
+#if !defined(H_MAP_ADD_VALUE)
+  __CPROVER_assert(!(in_def && !r), "COVER definite map full: refused");
+  __CPROVER_assert(!(in_def && r), "COVER definite map accepts");
+  __CPROVER_assert(!(!in_def && r && in_end < in_alloc), "COVER indefinite map with room");
+  __CPROVER_assert(!(!in_def && r && in_end == in_alloc && in_alloc > 0), "COVER indefinite map grows by doubling");
+  __CPROVER_assert(!(!in_def && r && in_alloc == 0), "COVER first growth from empty");
+  __CPROVER_assert(!(!in_def && !r), "COVER growth refused by the allocator");
+  __CPROVER_assert(!(r && g_k < in_end && in_end == in_alloc && !in_def), "COVER earlier pair watched across a reallocation");
+#else
+  __CPROVER_assert(!(r && g_k + 1 < in_end), "COVER earlier pair watched");
+  __CPROVER_assert(!(r && g_k + 1 == in_end), "COVER last pair watched");
+#endif
+}
+#elif defined(H_ADD_CHUNK)
+void harness(void) {
+  SETUP();
+  cbor_item_t *str = MK(), *chunk = MKCHUNK();
+  struct cbor_indefinite_string_data *d = (struct cbor_indefinite_string_data *)str->data;
+  size_t in_cap = d->chunk_capacity, in_cnt = d->chunk_count;
+  g_s.valid = true;
+  if (g_k < in_cnt) g_s.item = d->chunks[g_k];
+  bool r = ADD_CHUNK(str, chunk);
+  __CPROVER_assert(!(r && in_cnt < in_cap), "COVER chunk table with room");
+  __CPROVER_assert(!(r && in_cnt == in_cap && in_cap > 0), "COVER chunk table grows by doubling");
+  __CPROVER_assert(!(r && in_cap == 0), "COVER first growth from empty");
+  __CPROVER_assert(r, "COVER growth refused by the allocator");
+  __CPROVER_assert(!(r && g_k < in_cnt && in_cnt == in_cap), "COVER earlier chunk watched across a reallocation");
 }
 #endif
